@@ -12,7 +12,7 @@ func sf(names ...string) []*fedlab.SubField {
 func idf() *fedlab.FieldDef {
 	return &fedlab.FieldDef{Name: "id", Type: fedlab.NonNull(fedlab.Named("ID"))}
 }
-func fsc(j *fedlab.J) *fedlab.FVal { return &fedlab.FVal{Kind: fedlab.FSc, JSON: j} }
+func fsc(j *fedlab.J) *fedlab.FVal  { return &fedlab.FVal{Kind: fedlab.FSc, JSON: j} }
 func fref(t, k string) *fedlab.FVal { return &fedlab.FVal{Kind: fedlab.FRef, Type: t, Key: k} }
 func flst(xs ...*fedlab.FVal) *fedlab.FVal {
 	return &fedlab.FVal{Kind: fedlab.FLst, Items: xs}
@@ -142,7 +142,9 @@ func InterfaceFixture() (*fedlab.Config, *fedlab.Universe) {
 		e.Fields = append(e.Fields, extra...)
 		return e
 	}
-	s := func(t, k, f string) fedlab.FV { return fedlab.FV{Name: f, Val: fsc(fedlab.JS("zq9." + t + "." + k + "." + f))} }
+	s := func(t, k, f string) fedlab.FV {
+		return fedlab.FV{Name: f, Val: fsc(fedlab.JS("zq9." + t + "." + k + "." + f))}
+	}
 	prod := func(k string) *fedlab.Entity {
 		return ent("Product", k, s("Product", k, "sku"), s("Product", k, "price"),
 			fedlab.FV{Name: "ship", Val: &fedlab.FVal{Kind: fedlab.FReq, Req: []string{"price"}}}, s("Product", k, "label"))
@@ -195,9 +197,9 @@ var InterfaceOps = []string{
 func Fixtures() []Fixture {
 	return []Fixture{
 		{Name: "iface", Build: InterfaceFixture, Ops: InterfaceOps, Ps: [][]string{
-			{"Node.secret", "User.secret", "Product.secret"},                  // closed
-			{"User.secret"},                                                  // rule on one implementer only
-			{"Node.secret"},                                                  // rule on the interface only
+			{"Node.secret", "User.secret", "Product.secret"}, // closed
+			{"User.secret"}, // rule on one implementer only
+			{"Node.secret"}, // rule on the interface only
 			{"Product.price", "Product.id", "User.id", "Node.id"},            // @requires input and @key fields
 			{"Product.price", "Product.ship", "User.email", "Product.label"}, // entity-fetched, shareable
 			{"Query.nodes", "Query.node", "Query.me", "Query.product", "User.notes"},
